@@ -36,7 +36,8 @@ func (ex *Exec) entails(c *Term) bool {
 		return false
 	}
 	ex.profile("entails")
-	r := ex.sol.CheckWith(ex.tt.Not(c)) == Unsat
+	rr, _ := ex.solve([]*Term{ex.tt.Not(c)}, nil, false)
+	r := rr == Unsat
 	if ex.entMemo == nil {
 		ex.entMemo = map[memoKey]bool{}
 	}
@@ -50,16 +51,32 @@ func (ex *Exec) tryConst(t *Term) *Term {
 	if t.isConst {
 		return t
 	}
+	if r, ok := ex.constMemo[t]; ok {
+		return r
+	}
 	ex.profile("tryConst")
+	// probe inside a solver scope so that the probed term leaves no trace
+	ex.sol.Push()
+	unk0 := ex.sol.Stats.Unknown
 	res, k := ex.sol.ValueOf(t)
-	if res != Sat || k == nil {
-		return t
+	out := t
+	if res == Sat && k != nil {
+		ex.sol.Assert(ex.tt.Not(ex.tt.Eq(t, k)))
+		if ex.sol.Check() == Unsat {
+			out = k
+		}
 	}
-	if ex.entails(ex.tt.Eq(t, k)) {
-		ex.addPC(ex.tt.Eq(t, k))
-		return k
+	// an undecided probe only means "no constant found": it does not weaken any verdict
+	ex.sol.Stats.Unknown = unk0
+	ex.sol.PopScope()
+	if ex.constMemo == nil {
+		ex.constMemo = map[*Term]*Term{}
 	}
-	return t
+	ex.constMemo[t] = out
+	if out != t {
+		ex.addPC(ex.tt.Eq(t, out))
+	}
+	return out
 }
 
 // bounds computes a structural interval of an Int term (path-independent);
@@ -354,7 +371,33 @@ func (ex *Exec) intArith(op token.Token, a, b *Term, t types.Type, yt types.Type
 		var q *Term
 		aNonNeg := !signed || ex.entails(tt.IntCmp("<=", zero, a))
 		bPos := !signed || ex.entails(tt.IntCmp("<", zero, b))
-		if aNonNeg && bPos {
+		if aNonNeg && bPos && !b.isConst {
+			// symbolic divisor: quotient and remainder as fresh integers tied to
+			// the operands by a = b*q + r, 0 <= r < b (solvers cope with the
+			// product far better than with div/mod by a variable)
+			q0 := tt.IntBin("div", a, b)
+			if k := ex.tryConst(q0); k.isConst {
+				if op == token.QUO {
+					return ex.fitType(k, t)
+				}
+				return tt.IntBin("-", a, tt.IntBin("*", k, b))
+			}
+			qv := tt.Var(fmt.Sprintf("quo!%d!%d", a.id, b.id), IntSort)
+			rv := tt.Var(fmt.Sprintf("rem!%d!%d", a.id, b.id), IntSort)
+			ex.pathVars = append(ex.pathVars, qv, rv)
+			if _, ah := ex.bounds(a); ah != nil {
+				ex.tt.setVarRange(qv, big.NewInt(0), ah)
+				ex.tt.setVarRange(rv, big.NewInt(0), ah)
+			}
+			ex.addPC(tt.Eq(a, tt.IntBin("+", tt.IntBin("*", b, qv), rv)))
+			ex.addPC(tt.And(tt.IntCmp("<=", zero, rv), tt.IntCmp("<", rv, b)))
+			ex.addPC(tt.IntCmp("<=", zero, qv))
+			ex.addPC(tt.IntCmp("<=", qv, a))
+			if op == token.QUO {
+				return ex.fitType(qv, t)
+			}
+			return rv
+		} else if aNonNeg && bPos {
 			q = tt.IntBin("div", a, b)
 		} else {
 			absA := tt.Ite(tt.IntCmp("<=", zero, a), a, tt.IntNeg(a))
@@ -366,6 +409,11 @@ func (ex *Exec) intArith(op token.Token, a, b *Term, t types.Type, yt types.Type
 		if !b.isConst {
 			// nonlinear: if the path condition pins the quotient to one value use it
 			q = ex.tryConst(q)
+			if !q.isConst && aNonNeg && bPos {
+				// defining lemma of the quotient, stated with a product: b*q <= a < b*q + b
+				bq := tt.IntBin("*", b, q)
+				ex.addPC(tt.And(tt.IntCmp("<=", bq, a), tt.IntCmp("<", a, tt.IntBin("+", bq, b))))
+			}
 		}
 		if op == token.QUO {
 			return ex.fitType(q, t)
